@@ -28,6 +28,17 @@ bool splinetable<Alloc>::searchcenters(const double* x, int* centers) const
 			continue;
 		} else if (x[i] >= knots[i][naxes[i]]) {
 			centers[i] = naxes[i]-1;
+			/*
+			 * If the last fully-supported knot is a repeated one, the
+			 * interval below it is empty and has no polynomial piece
+			 * to evaluate: exactly on that knot, take the nearest
+			 * interval which is not empty, whose right end it is.
+			 */
+			if (x[i] == knots[i][naxes[i]]) {
+				while (unsigned(centers[i]) > order[i] &&
+				    knots[i][centers[i]] == knots[i][centers[i]+1])
+					centers[i]--;
+			}
 			continue;
 		}
 		
